@@ -5,7 +5,8 @@ From Coq Require Import String List NArith ZArith Bool Lia ZifyN ZifyNat ZifyBoo
 From J5V.lib Require Import Outcome Json JsonPrint Base64 Civil Decimal.
 From J5V.model Require Import CodecTypes CodecEnc CodecEncSpec CodecEncDec.
 From J5V.model Require CodecDecScalar CodecDec CodecDecTree.
-From J5V.proofs Require Import CodecEncProofs CodecEncDecProofs CodecEncTotal CodecEncDecTie.
+From J5V.proofs Require CodecDecTime CodecDecDecimal.
+From J5V.proofs Require Import CodecEncProofs CodecEncDecProofs CodecEncTotal CodecEncDecTie CodecEncLex.
 Import ListNotations.
 Local Open Scope N_scope.
 
@@ -22,13 +23,13 @@ Theorem C01_codec_roundtrip :
     float_text_ok fmt_float -> float_roundtrip fmt_float parse_float -> time_parse_extends parse_time ->
     inner_ok any_inner ->
     forall root m txt,
-      rep_root any_inner env root m -> encode fmt_float any_inner env root m = Ok txt ->
+      rep_root any_inner print None env root m -> encode fmt_float any_inner env root m = Ok txt ->
       exists J, strict_parse txt = Some J /\
         (N.of_nat (jnest J) <= max_nesting ->
-         exists m', decode_tree (dec_scalar parse_float parse_time) print false env root J = Ok m' /\ equiv_root any_inner print env root m m').
+         exists m', decode_tree (dec_scalar parse_float parse_time) print false None env root J = Ok m' /\ equiv_root any_inner print None env root m m').
 Proof.
   intros fmt_float any_inner parse_float parse_time env Hflat Hnames Hfok Hfrt Htime Hinner.
-  exact (codec_roundtrip fmt_float any_inner (dec_scalar parse_float parse_time) print print_nonempty false env Hflat Hnames
+  exact (codec_roundtrip fmt_float any_inner (dec_scalar parse_float parse_time) print print_nonempty false None env Hflat Hnames
            (scalar_rt_own fmt_float parse_float parse_time Hfok Hfrt Htime) Hinner).
 Qed.
 Print Assumptions C01_codec_roundtrip.
@@ -55,24 +56,24 @@ Theorem C01_full_statement :
     oneofs_flat env -> oneof_names_ok env ->
     float_text_ok fmt_float -> float_roundtrip fmt_float parse_float -> time_parse_extends parse_time ->
     inner_ok any_inner ->
-    forall root m, rep_root any_inner env root m ->
+    forall root m, rep_root any_inner print None env root m ->
       exists txt J, encode fmt_float any_inner env root m = Ok txt /\ strict_parse txt = Some J /\
         (N.of_nat (jnest J) <= max_nesting ->
-         exists m', decode_tree (dec_scalar parse_float parse_time) print false env root J = Ok m' /\ equiv_root any_inner print env root m m').
+         exists m', decode_tree (dec_scalar parse_float parse_time) print false None env root J = Ok m' /\ equiv_root any_inner print None env root m m').
 Proof.
   intros fmt_float any_inner parse_float parse_time env Hflat Hnames Hfok Hfrt Htime Hinner.
-  exact (codec_full fmt_float any_inner (dec_scalar parse_float parse_time) env Hflat
-           (scalar_rt_own fmt_float parse_float parse_time Hfok Hfrt Htime) Hnames Hinner print print_nonempty false).
+  exact (codec_full fmt_float any_inner (dec_scalar parse_float parse_time) print None env Hflat
+           (scalar_rt_own fmt_float parse_float parse_time Hfok Hfrt Htime) Hnames Hinner print_nonempty false).
 Qed.
 Print Assumptions C01_full_statement.
 Theorem C01_encode_succeeds :
   forall fmt_float any_inner parse_float parse_time env,
     oneofs_flat env -> float_text_ok fmt_float -> float_roundtrip fmt_float parse_float ->
     time_parse_extends parse_time ->
-    forall root m, rep_root any_inner env root m -> exists txt, encode fmt_float any_inner env root m = Ok txt.
+    forall root m, rep_root any_inner print None env root m -> exists txt, encode fmt_float any_inner env root m = Ok txt.
 Proof.
   intros fmt_float any_inner parse_float parse_time env Hflat Hfok Hfrt Htime.
-  exact (encode_total fmt_float any_inner (dec_scalar parse_float parse_time) env Hflat
+  exact (encode_total fmt_float any_inner (dec_scalar parse_float parse_time) print None env Hflat
            (scalar_rt_own fmt_float parse_float parse_time Hfok Hfrt Htime)).
 Qed.
 Print Assumptions C01_encode_succeeds.
@@ -90,13 +91,52 @@ Theorem C01_full_statement_dec :
     oneofs_flat env -> oneof_names_ok env -> env_items_ok env ->
     float_text_ok fmt_float -> orc_float_ok fmt_float orc -> orc_time_ok orc -> orc_decimal_ok orc ->
     inner_ok any_inner ->
-    forall root m, rep_root any_inner env root m ->
+    forall root m, rep_root any_inner raw_dec None env root m ->
       exists txt J, encode fmt_float any_inner env root m = Ok txt /\ strict_parse txt = Some J /\
         (CodecDecTree.jdepth J <= CodecDec.max_scan_depth ->
          exists m', CodecDecTree.tr_decode orc env (S (CodecDecTree.jsize J)) root J = Ok m' /\
-                    equiv_root any_inner raw_dec env root m m').
+                    equiv_root any_inner raw_dec None env root m m').
 Proof. exact codec_full_dec. Qed.
 Print Assumptions C01_full_statement_dec.
+(* ... and on the encoder's TEXT through the decoder family's byte-level model: the tokenizer
+   Json.lex reads print J as exactly the tokens of J (C01_tokenizer_reads_print), and
+   CodecDec.decode_bytes on those bytes is tr_decode on J (that family's decode_bytes_tree). *)
+Theorem C01_full_statement_bytes :
+  forall fmt_float any_inner (orc : CodecDecScalar.oracles) env,
+    oneofs_flat env -> oneof_names_ok env -> env_items_ok env ->
+    float_text_ok fmt_float -> orc_float_ok fmt_float orc -> orc_time_ok orc -> orc_decimal_ok orc ->
+    inner_ok any_inner ->
+    forall root m, rep_root any_inner raw_dec None env root m ->
+      exists txt J, encode fmt_float any_inner env root m = Ok txt /\ txt = print J /\ wfb J = true /\
+        (CodecDecTree.jdepth J <= CodecDec.max_scan_depth ->
+         exists m', CodecDec.decode_bytes orc env root txt = Ok m' /\
+                    equiv_root any_inner raw_dec None env root m m').
+Proof. exact codec_full_bytes. Qed.
+Print Assumptions C01_full_statement_bytes.
+(* the same with the decoder family's oracle MODELS as premises: time.Parse is that family's model of
+   Go's general layout parser (go_time_parse) and decimal.NewFromString is lib/Decimal — both compared
+   with the real functions on every run of that family's checks; only the strconv float law stays a law *)
+Theorem C01_full_statement_bytes_oracle_models :
+  forall fmt_float any_inner (orc : CodecDecScalar.oracles) env,
+    oneofs_flat env -> oneof_names_ok env -> env_items_ok env ->
+    float_text_ok fmt_float -> orc_float_ok fmt_float orc ->
+    J5V.proofs.CodecDecTime.time_oracle_is_model orc ->
+    J5V.proofs.CodecDecDecimal.decimal_oracle_is_model orc ->
+    inner_ok any_inner ->
+    forall root m, rep_root any_inner raw_dec None env root m ->
+      exists txt J, encode fmt_float any_inner env root m = Ok txt /\ txt = print J /\ wfb J = true /\
+        (CodecDecTree.jdepth J <= CodecDec.max_scan_depth ->
+         exists m', CodecDec.decode_bytes orc env root txt = Ok m' /\
+                    equiv_root any_inner raw_dec None env root m m').
+Proof.
+  intros fmt_float any_inner orc env Hflat Hnames Hitems Hfok Hfl Ht Hd Hinner.
+  exact (codec_full_bytes fmt_float any_inner orc env Hflat Hnames Hitems Hfok Hfl
+           (orc_time_from_model orc Ht) (orc_decimal_from_model orc Hd) Hinner).
+Qed.
+Print Assumptions C01_full_statement_bytes_oracle_models.
+Theorem C01_tokenizer_reads_print : forall J, wfb J = true -> lex (print J) = (tokens_of J, false).
+Proof. exact lex_print. Qed.
+Print Assumptions C01_tokenizer_reads_print.
 Theorem C01_dec_premises_satisfiable :
   float_text_ok inst_fmt /\ orc_float_ok inst_fmt inst_orc /\ orc_time_ok inst_orc /\ orc_decimal_ok inst_orc.
 Proof. exact orc_premises_satisfiable. Qed.
@@ -106,7 +146,7 @@ Print Assumptions C01_dec_premises_satisfiable.
 Theorem C01_decoder_models_agree :
   forall (orc : CodecDecScalar.oracles) env, env_items_ok env ->
     forall root J m', CodecDecTree.jdepth J <= CodecDec.max_scan_depth ->
-      decode_tree (dsc_dec orc) raw_dec true env root J = Ok m' ->
+      decode_tree (dsc_dec orc) raw_dec true None env root J = Ok m' ->
       CodecDecTree.tr_decode orc env (S (CodecDecTree.jsize J)) root J = Ok m'.
 Proof. exact decode_tree_sim. Qed.
 Print Assumptions C01_decoder_models_agree.
@@ -209,9 +249,9 @@ Definition rt_tree : jvalue := Eval vm_compute in
   match strict_parse rt_txt with Some j => j | None => JNull end.
 
 Example C01_roundtrip_example :
-  oneofs_flat rt_env /\ oneof_names_ok rt_env /\ rep_root rt_inner rt_env [82] rt_msg /\
+  oneofs_flat rt_env /\ oneof_names_ok rt_env /\ rep_root rt_inner print None rt_env [82] rt_msg /\
   encode rt_fmt rt_inner rt_env [82] rt_msg = Ok rt_txt /\ strict_parse rt_txt = Some rt_tree /\
-  decode_tree (dec_scalar rt_pf rt_pt) print false rt_env [82] rt_tree = Ok rt_msg.
+  decode_tree (dec_scalar rt_pf rt_pt) print false None rt_env [82] rt_tree = Ok rt_msg.
 Proof.
   split; [apply oneofs_flat_b_sound; vm_compute; reflexivity|].
   split; [apply oneof_names_ok_b_sound; vm_compute; reflexivity|].
@@ -242,3 +282,64 @@ Proof.
     + intros p q1 q2 Hp Hq1. vm_compute in Hp. destruct Hp as [<-|[<-|[<-|[]]]]; contradiction.
   - split; [vm_compute; reflexivity|]. split; vm_compute; reflexivity.
 Qed.
+
+(* google.protobuf.Any: the statement with the codec option WithProtoToAny ([any_back = Some back], back
+   standing for resolver + decode of the payload text + proto.Marshal).  rep_root then asks that the
+   reverse conversion of the payload text succeeds; the decoded value bytes are what it yields
+   (EV_pbany) — that forward and reverse conversion are inverse is the inner codec's own round trip. *)
+Theorem C01_full_statement_proto_any :
+  forall fmt_float any_inner parse_float parse_time back env,
+    oneofs_flat env -> oneof_names_ok env ->
+    float_text_ok fmt_float -> float_roundtrip fmt_float parse_float -> time_parse_extends parse_time ->
+    inner_ok any_inner ->
+    forall root m, rep_root any_inner print (Some back) env root m ->
+      exists txt J, encode fmt_float any_inner env root m = Ok txt /\ strict_parse txt = Some J /\
+        (N.of_nat (jnest J) <= max_nesting ->
+         exists m', decode_tree (dec_scalar parse_float parse_time) print false (Some back) env root J = Ok m' /\
+                    equiv_root any_inner print (Some back) env root m m').
+Proof.
+  intros fmt_float any_inner parse_float parse_time back env Hflat Hnames Hfok Hfrt Htime Hinner.
+  exact (codec_full fmt_float any_inner (dec_scalar parse_float parse_time) print (Some back) env Hflat
+           (scalar_rt_own fmt_float parse_float parse_time Hfok Hfrt Htime) Hnames Hinner print_nonempty false).
+Qed.
+Print Assumptions C01_full_statement_proto_any.
+
+(* non-vacuity for a google.protobuf.Any field: type T, payload bytes 0a 01 78, inner JSON {} *)
+Definition pa_env : env := [([82], SObject [mkProp [97] [1] false true [] (FAny true)])].
+Definition pa_msg : msg := [(1, VMsg [(1, VStr (any_prefix ++ [84])); (2, VBytes [10; 1; 120])])].
+Definition pa_inner (tn pb : bytes) : outcome bytes := Ok [123; 125].
+Definition pa_back (tn js : bytes) : outcome bytes := Ok [10; 1; 120].
+Definition pa_txt : bytes := Eval vm_compute in
+  match encode rt_fmt pa_inner pa_env [82] pa_msg with Ok t => t | _ => [] end.
+Definition pa_tree : jvalue := Eval vm_compute in
+  match strict_parse pa_txt with Some j => j | None => JNull end.
+Example C01_proto_any_example :
+  rep_root pa_inner print (Some pa_back) pa_env [82] pa_msg /\
+  encode rt_fmt pa_inner pa_env [82] pa_msg = Ok pa_txt /\ strict_parse pa_txt = Some pa_tree /\
+  decode_tree (dec_scalar rt_pf rt_pt) print false (Some pa_back) pa_env [82] pa_tree = Ok pa_msg.
+Proof.
+  split.
+  - unfold rep_root. change (lookup pa_env [82]) with (Some (SObject [mkProp [97] [1] false true [] (FAny true)])).
+    constructor.
+    + apply props_ok_b_sound. vm_compute. reflexivity.
+    + intros l v Hl Hv. vm_compute in Hl. destruct Hl as [<-|[]]. vm_compute in Hv. injection Hv as <-.
+      split; [|reflexivity].
+      apply RV_pbany with (tn := [84]).
+      * reflexivity.
+      * reflexivity.
+      * intros n v Hg. cbn [msg_get] in Hg.
+        destruct (1 =? n) eqn:E1; [apply N.eqb_eq in E1; subst n; injection Hg as <-; left; eauto|].
+        destruct (2 =? n) eqn:E2; [apply N.eqb_eq in E2; subst n; injection Hg as <-; right; eauto|discriminate].
+      * eexists. reflexivity.
+      * exists pa_back. split; [reflexivity|]. intros Jd _ _. eexists. reflexivity.
+    + intros l a n s v Hl Hp Hv Hs. vm_compute in Hl. destruct Hl as [<-|[]]. cbn [p_siblings] in Hs. contradiction.
+    + intros p q1 q2 Hp Hq1. vm_compute in Hp. destruct Hp as [<-|[]]. contradiction.
+  - split; [vm_compute; reflexivity|]. split; vm_compute; reflexivity.
+Qed.
+
+(* the same document through the decoder family's byte-level model (tokenizer + token decoder) *)
+Example C01_bytes_example :
+  env_items_ok_b rt_env = true /\
+  lex rt_txt = (tokens_of rt_tree, false) /\
+  CodecDec.decode_bytes inst_orc rt_env [82] rt_txt = Ok rt_msg.
+Proof. split; [vm_compute; reflexivity|]. split; vm_compute; reflexivity. Qed.
